@@ -320,6 +320,36 @@ func run(e *core.Env) {
 				trial(kind, "tampered", linkXV, mut, false)
 				e.Fault("corrupt_bit")
 			}
+			// (a') message type rewritten to each other ping type
+			for _, nt := range []byte{0, 1, 2, 3} {
+				if orig[4] == nt || !tp.Chance(1, 2) {
+					continue
+				}
+				mut := append([]byte(nil), orig...)
+				mut[4] = nt
+				trial(kind, "type-rewritten", linkXV, mut, false)
+				e.Fault("corrupt_field")
+			}
+			// (a'') correctly framed but signed with a foreign key: the header still carries X's key
+			if orig[4] != 2 && tp.Chance(1, 2) {
+				for _, nt := range []byte{orig[4], 0, 1, 3} {
+					mut := append([]byte(nil), orig...)
+					mut[4] = nt
+					if f, err := mesh.ParseCrossing(parser, mut); err == nil {
+						if fv, ok := f.(*frame.FrameV1); ok {
+							ttl := fv.TTL()
+							fv.SetTTL(0)
+							clear(fv.AuthData())
+							_ = fv.SignRaw(ghost.PrivateKey)
+							fv.SetTTL(ttl)
+							d, _ := fv.FrameDataWithMargins(0, 0)
+							trial(kind, "forged-signature", linkXV, append([]byte(nil), d...), false)
+							e.Fault("inject")
+						}
+						f.ReturnToPool()
+					}
+				}
+			}
 			// (b) re-addressed
 			for _, variant := range []int{0, 1, 2} {
 				mut := append([]byte(nil), orig...)
